@@ -201,7 +201,10 @@ KINDS_REAL = ["8", "4", "dp", "wp", "WP", "real64", "kind(1.0d0)", "selected_rea
 LENS = ["10", "1", "*", ":", "n", "80", "n+1", "2*n", "len(x)", "N", "max_len"]
 CKINDS = ["ck", "1", "c_char", "selected_char_kind('ascii')"]
 NAMES = ["x", "y", "idx", "buf", "alpha", "Beta", "n_max", "i", "tmp2", "Arr"]
-DIMS = ["(3)", "(2,2)", "(0:4)", "(:)", "(n)", "(:,:)", "(size(a))", "(2,n+1)"]
+# array specs with an "=" inside the parentheses: keyword arguments of inquiry functions, relational operators
+EQ_DIMS = ["(size(a,dim=1))", "(size(a,dim=1),size(a,dim=2))", "(lbound(a,dim=1):ubound(a,dim=1))", "(merge(4,8,n<=4))",
+           "(merge(2,3,n>=1))", "(merge(2,3,n==1))", "(merge(2,3,n/=1))", "(len(c,kind=4))", "(0:merge(1,2,mask=flag),3)"]
+DIMS = ["(3)", "(2,2)", "(0:4)", "(:)", "(n)", "(:,:)", "(size(a))", "(2,n+1)"] + EQ_DIMS[:4] + EQ_DIMS[5:6]
 TYPENAMES = ["point", "my_type", "Node", "vec3", "module_t", "pure_t"]
 ATTRS = ["allocatable", "pointer", "target", "save", "volatile", "asynchronous", "value", "contiguous"]
 
@@ -295,6 +298,31 @@ def gen_decl(rng, allow_intent=False, names=None):
             init = gen_init(rng, t, dim, pointer)
         ents.append(dict(name=name, dim=dim, points=pointer, init=init))
     return dict(type=t, parameter=parameter, intent=intent, optional=optional, attrs=attrs, entities=ents)
+
+
+def forced_eq_decls(rng):
+    """declarations whose entity carries an array spec with "=" at depth >= 1 (EQ_DIMS): alone, with an initial
+    value, beside other entities, beside a pointer initialisation -- in the plain and in one random spelling"""
+    real, integer = ("num", "real", None), ("num", "integer", "4")
+
+    def decl(t, ents, attrs=()):
+        return dict(type=t, parameter=False, intent=None, optional=False, attrs=list(attrs), entities=ents)
+
+    def ent(name, dim=None, init=None, points=False):
+        return dict(name=name, dim=dim, points=points, init=init)
+    out = []
+    for i, dim in enumerate(EQ_DIMS):
+        ds = [decl(real, [ent("y", dim)]),
+              decl(real, [ent("shadow", dim, [("t", "0.0")])]),
+              decl(integer, [ent("w", dim, [("t", "[1,2,3]")]), ent("k", None, [("t", "2")]), ent("z", EQ_DIMS[(i + 1) % len(EQ_DIMS)])]),
+              decl(real, [ent("p", "(:)", [("t", "null()")], True), ent("q", dim, None, False)], ["pointer"]),
+              decl(("char", "10", None), [ent("names", dim, [("t", "["), ("l", "'", "a=b"), ("t", ","), ("l", '"', "c<=d"), ("t", "]")])])]
+        for d in ds:
+            out.append((d, dict(PLAIN_D)))
+            sp = gen_dspell(rng, d)
+            if no_dcolon_legal(sp, d):
+                out.append((d, sp))
+    return out
 
 
 def gen_dspell(rng, d, plain=False):
